@@ -397,6 +397,11 @@ class Project:
         # TODO: This method does more than one thing. We ought to simplify it.
         license_files: dict[str, Path] = {}
 
+        # Only a directory holds license texts. glob() also yields 'LICENSES/'
+        # itself, which is a regular file when LICENSES is one.
+        if not (self.root / "LICENSES").is_dir():
+            return license_files
+
         directory = str(self.root / "LICENSES/**")
         for path_str in glob.iglob(directory, recursive=True):
             path = Path(path_str)
